@@ -3,11 +3,49 @@ A key names a mechanism, never a case hash or random values.  Anything that cann
 returns None and is therefore reported as a new violation."""
 
 
+K_ABSTRACT = "abstracted-condition-loses-correlation-with-its-own-variables"
+
+
+def abstracted_condition_vars(program):
+    """names of the variables occurring in conditions Polar abstracted as Bernoulli events, plus the variables
+    that are assigned from them (one level)"""
+    names = set()
+    for cond in getattr(program, "abstracted_const_store", {}).values():
+        names |= {str(s) for s in cond.get_free_symbols()}
+    return names
+
+
 def classify_moment_violation(case, violation, recs, program):
+    """K_ABSTRACT: the goal monomial contains a variable of a condition that Polar replaced by an independent Bernoulli
+    event, so the correlation between that variable and the assignments under the condition is lost by design.
+    K_UNINIT (see classify_type_violation): decided by re-running the C05 oracle on the same program is not done here."""
+    if program is None:
+        return None
+    av = abstracted_condition_vars(program)
+    if av:
+        goal = violation.get("goal", "")
+        import re
+        gv = set(re.findall(r"[A-Za-z_][A-Za-z_0-9]*", goal))
+        if gv & av:
+            return K_ABSTRACT
+        # variables computed from an abstracted-condition variable in the loop body (y = y + u)
+        try:
+            for a in program.loop_body:
+                if str(a.variable) in gv and {str(x) for x in a.get_free_symbols(with_condition=False)} & av:
+                    return K_ABSTRACT
+        except Exception:
+            pass
     return None
 
 
 def classify_stage_violation(case, violation, stage, stages):
+    """K_ABSTRACT: the first pass after which the law differs is the one that replaced a condition over a continuous
+    draw by an independent Bernoulli event (the joint law of the draw and the variables assigned under the condition
+    changes by design)"""
+    if stage.extra.get("abstracted") and stage.name in ("ConditionsNormalizer", "ConditionsToArithm"):
+        prev = [s for s in stages if s.index == stage.index - 1]
+        if stage.name == "ConditionsNormalizer" or (prev and prev[0].extra.get("abstracted")):
+            return K_ABSTRACT
     return None
 
 
